@@ -14,8 +14,6 @@ def P1.antiB (a b : P1) : Bool := a.anti b
 
 def letterAt (s : PS) (q : Nat) : P1 := s.ps.getD q .I
 
-def GateRow.noEffectOnQubits (g : GateRow) : Bool := g.has 14
-
 def hasQubitValue (t : Target) : Bool := !(t.isRec || t.isSweep || t.isCombiner)
 
 def negatePS (s : PS) : PS := ⟨(s.ph + 2) % 4, s.ps⟩
